@@ -61,11 +61,12 @@ void h_resp_error(void)
 		__CPROVER_assert(r->type == cJSON_Object && count_members(r, "id") == 1 && id_equal(cJSON_GetObjectItem(r, "id"), &id), "C02.resp.error-response-carries-equal-id");
 		__CPROVER_assert(count_members(r, "error") == 1 && count_members(r, "result") == 0, "C02.resp.error-response-has-exactly-error");
 		const cJSON *e = cJSON_GetObjectItem(r, "error");
-		const cJSON *c = cJSON_GetObjectItem(e, "code");
-		__CPROVER_assert(e->type == cJSON_Object && c != NULL && c->type == cJSON_Number && c->valuedouble == (double)code, "C02.resp.error-code-reported");
+		const cJSON *c = e ? cJSON_GetObjectItem(e, "code") : NULL;
+		__CPROVER_assert(e != NULL && e->type == cJSON_Object && c != NULL && c->type == cJSON_Number && c->valuedouble == (double)code, "C02.resp.error-code-reported");
 		cJSON_Delete(r);
 	}
 	__CPROVER_assert(verif_cj_live_nodes == 0, "C02.resp.no-json-node-left-behind");
+	__CPROVER_assert(verif_cj_live_nodes == 0, "C15.resp.allocation-failure-leaks-nothing");
 	VERIF_COVER(r != NULL && id.type == cJSON_Number, "numeric id answered");
 	VERIF_COVER(r != NULL && id.type == cJSON_String && idbuf[0] != 0, "string id answered");
 	VERIF_COVER(!answerable, "unanswerable id type");
@@ -90,6 +91,8 @@ void h_resp_result(void)
 		cJSON_Delete(r);
 	}
 	__CPROVER_assert(verif_cj_live_nodes == 0, "C02.resp.result-owned-exactly-once");
+	__CPROVER_assert(verif_cj_live_nodes == 0, "C15.resp.result-released-on-every-failure");
+	if (r != NULL) (void)0;
 	VERIF_COVER(r != NULL && id.type == cJSON_Number && id.valuedouble == 7.0, "numeric id 7 answered");
 	VERIF_COVER(r == NULL, "no response");
 }
